@@ -93,9 +93,12 @@ def print_type_constr(constr):
 def print_str_args(rule, args, th):
     def str_val(val):
         if isinstance(val, Inst):
+            # Type instantiations are written 'a: T, before the term instantiations
+            ty_items = sorted(val.tyinst.items(), key = lambda pair: pair[0])
             items = sorted(val.items(), key = lambda pair: pair[0])
-            return pprint.N('{') + commas_join(pprint.N(key + ': ') + str_val(val)
-                                               for key, val in items) + pprint.N('}')
+            return pprint.N('{') + commas_join(
+                [pprint.N("'" + key + ': ') + str_val(T) for key, T in ty_items] +
+                [pprint.N(key + ': ') + str_val(val) for key, val in items]) + pprint.N('}')
         elif isinstance(val, Term):
             if th and val == th.prop and rule != 'assume' and settings.highlight:
                 return pprint.Gray("⟨goal⟩")
